@@ -323,6 +323,9 @@ func C09(ctx *core.Ctx, r *core.Report) {
 
 	// 4. Choose implementations iterate deterministically
 	c09ChooseSiblings(ctx, r)
+	impliedCasePerNode(ctx, r)
+	memoDebug(ctx, r)
+	r.Count("instances:no-stale-verdicts(tables of data-derived answers)", noStaleVerdicts(ctx, r, append(scopeFuncs(ctx, "node"), scopeFuncs(ctx, "nodeutil")...), "node", "nodeutil"))
 }
 
 // dependsOnParamLoose: v is the parameter, a conversion of it, or an interface made from it.
@@ -401,4 +404,93 @@ func c09ChooseSiblings(ctx *core.Ctx, r *core.Report) {
 			"Choose ranges over the Cases() map and returns the first case with data: for data holding nodes of two cases the answer changes from run to run")
 	}
 	r.Floor("choose-deterministic", n, 4)
+}
+
+// impliedCasePerNode (C09, C01): RFC 7950 7.9.2 — a data node written directly
+// in a choice (here: augmented into one) is a case of its own, named after the
+// node. In resolver.expandAugment the case handed to addDataDefinition for such
+// a node must be built by Builder.Case in that very loop iteration, from the
+// identifier of the node being inserted; a case carried from one iteration to
+// the next puts several shorthand nodes into one case, and they are no longer
+// exclusive.
+func impliedCasePerNode(ctx *core.Ctx, r *core.Report) {
+	f := ctx.Method("meta", "resolver", "expandAugment")
+	bc := ctx.Method("meta", "Builder", "Case")
+	if f == nil || bc == nil {
+		r.Fatalf("anchors meta.resolver.expandAugment / meta.Builder.Case not found")
+		return
+	}
+	n := 0
+	for _, c := range core.CallSites(f) {
+		cal := core.StaticCallee(c)
+		if cal == nil || cal.Name() != "addDataDefinition" {
+			continue
+		}
+		args := c.Common().Args
+		if len(args) < 2 {
+			continue
+		}
+		parent, child := args[len(args)-2], args[len(args)-1]
+		// only the calls whose parent is (on some path) a case built here
+		builtHere := false
+		var walk func(v ssa.Value, seen map[ssa.Value]bool) (direct bool)
+		walk = func(v ssa.Value, seen map[ssa.Value]bool) bool {
+			if seen[v] {
+				return true
+			}
+			seen[v] = true
+			switch x := v.(type) {
+			case *ssa.MakeInterface:
+				return walk(x.X, seen)
+			case *ssa.ChangeInterface:
+				return walk(x.X, seen)
+			case *ssa.Call:
+				if core.StaticCallee(x) == bc {
+					builtHere = true
+					return true
+				}
+				return true
+			case *ssa.Phi:
+				for _, e := range x.Edges {
+					walk(e, seen)
+				}
+				return false
+			case *ssa.UnOp:
+				if al, ok := x.X.(*ssa.Alloc); ok {
+					for _, ref := range *al.Referrers() {
+						if st, ok := ref.(*ssa.Store); ok && st.Addr == ssa.Value(al) {
+							walk(st.Val, seen)
+						}
+					}
+					return false
+				}
+			}
+			return true
+		}
+		direct := walk(parent, map[ssa.Value]bool{})
+		if !builtHere {
+			continue
+		}
+		n++
+		ok, msg := direct, "the implied case is carried from one iteration to the next (or merged with another value): several nodes written directly in the choice end up in ONE case and are no longer exclusive"
+		if ok {
+			// named after the node being inserted
+			var call *ssa.Call
+			switch x := parent.(type) {
+			case *ssa.Call:
+				call = x
+			case *ssa.MakeInterface:
+				call, _ = x.X.(*ssa.Call)
+			}
+			if call != nil {
+				ident := call.Common().Args[len(call.Common().Args)-1]
+				ic, isCall := ident.(*ssa.Call)
+				if !isCall || originOf(ic.Common().Value, 0) != originOf(child, 0) && !(len(ic.Common().Args) > 0 && originOf(ic.Common().Args[0], 0) == originOf(child, 0)) {
+					ok, msg = false, "the implied case is not named after the node it is built for"
+				}
+			}
+		}
+		r.Ob("implied-case-per-node", "meta.resolver.expandAugment/addDataDefinition(implied case)", ctx.Pos(c.Pos()), ok, msg)
+	}
+	r.Floor("implied-case-per-node", n, 1)
 }
